@@ -366,23 +366,48 @@ pub fn run(args: &Args) -> i32 {
     // foreign side
     let content = content_class(3, seed);
     let mut st = Stats::default();
+    // what other producers put next to such entries: the "version needed to extract" they stamp (1.0 .. 6.3: APPNOTE asks for
+    // 6.3 with Zstandard), Info-ZIP's extended timestamp (UT, 0x5455) and NTFS (0x000a) blocks carrying ANOTHER instant than
+    // the DOS words (producers outside UTC), an odd DOS date
+    let ut = |secs: u32| {
+        let mut b = vec![0x03u8];
+        b.extend_from_slice(&secs.to_le_bytes());
+        b.extend_from_slice(&(secs + 7).to_le_bytes());
+        crate::reference::zipbuild::extra_block(0x5455, &b)
+    };
+    let dressings: Vec<(&str, Option<u16>, Vec<u8>, u16)> = vec![
+        ("plain", None, vec![], 0x5821),
+        ("version-10", Some(10), vec![], 0x5821),
+        ("version-45", Some(45), vec![], 0x5821),
+        ("version-51", Some(51), vec![], 0x5821),
+        ("version-63", Some(63), vec![], 0x5821),
+        ("UT-block-other-instant", None, ut(1_000_000_000), 0x5821),
+        ("UT+NTFS-blocks", Some(20), [ut(1_234_567_890), crate::reference::zipbuild::extra_block(0x000a, &[0, 0, 0, 0, 1, 0, 24, 0, 0, 0x80, 0x3e, 0xd5, 0xde, 0xb1, 0x9d, 1, 0, 0x80, 0x3e, 0xd5, 0xde, 0xb1, 0x9d, 1, 0, 0x80, 0x3e, 0xd5, 0xde, 0xb1, 0x9d, 1])].concat(), 0x5821),
+        ("date-word-0", None, vec![], 0),
+    ];
     for &m in &methods {
         for infozip in [false, true] {
             for (pi, pw) in pws.iter().enumerate() {
+              for (dname, vn, xblocks, date) in &dressings {
+                // every dressing with the first two passwords; the plain one with all
+                if *dname != "plain" && pi >= 2 {
+                    continue;
+                }
                 let spec = Spec {
                     entries: vec![
                         ESpec { name: b"plain".to_vec(), method: 8, content: b"neighbour".to_vec(), ..Default::default() },
-                        ESpec { name: b"f".to_vec(), method: m, content: content.clone(), time: 0x7abc + pi as u16, dd: if infozip { Dd::Sig32 } else { Dd::None }, enc: Enc::ZipCrypto { pw: pw.clone(), infozip }, ..Default::default() },
+                        ESpec { name: b"f".to_vec(), method: m, content: content.clone(), time: 0x7abc + pi as u16, date: *date, dd: if infozip { Dd::Sig32 } else { Dd::None }, enc: Enc::ZipCrypto { pw: pw.clone(), infozip }, version_needed: *vn, local_extra: xblocks.clone(), central_extra: xblocks.clone(), ..Default::default() },
                     ],
                     ..Default::default()
                 };
                 let bytes = build(&spec).0;
-                let what = format!("foreign-{}:m{m}/password-{}B", if infozip { "infozip" } else { "pkware" }, pw.len());
+                let what = format!("foreign-{}:m{m}/password-{}B/{dname}", if infozip { "infozip" } else { "pkware" }, pw.len());
                 let (b2, pw2, c2) = (bytes.clone(), pw.clone(), content.clone());
                 let case = move || json!({"archive": hex(&b2), "password": hex(&pw2), "idx": 1, "name": "f", "content": hex(&c2)});
                 st.distinct_hash(fnv(&bytes) ^ fnv(pw));
                 check_entry(&bytes, 1, "f", pw, &content, &what, &mut st, &case, 2 << 50);
                 check_wrong(&bytes, 1, b"not it", &what, &mut st, &case, 2 << 50);
+              }
             }
         }
     }
